@@ -62,6 +62,29 @@ func submissions(around []string, window []string, d int) []string {
 			add("０" + x[3:])
 		}
 	}
+	// strings that a lenient NUMERIC comparison would equate with a window code: a sign or
+	// blank in place of a leading zero, and values that differ by a multiple of 2^31 / 2^32
+	// (wrap-around of 32-bit integer comparisons) rendered with the same number of digits
+	for _, w := range window {
+		if len(w) > 1 && w[0] == '0' {
+			add("+" + w[1:])
+			add("-" + w[1:])
+			add(" " + w[1:])
+		}
+		if len(w) >= 10 {
+			var v uint64
+			fmt.Sscan(w, &v)
+			for _, k := range []uint64{1 << 31, 1 << 32, 3 << 31, 1 << 33} {
+				if s := fmt.Sprint(v + k); len(s) == len(w) {
+					add(s)
+				}
+			}
+		}
+		if len(w) >= 2 {
+			add(w[:len(w)-1] + ".")
+			add("0x" + w[2:])
+		}
+	}
 	add("")
 	add(strings.Repeat("0", d))
 	add(strings.Repeat("9", d))
